@@ -119,6 +119,9 @@ func (c *syncMap) ExpireAll(ctx context.Context) {
 		return true
 	})
 
+	// Entries have expiration now, janitor of UnlimitedTTL cache must not skip them.
+	atomic.AddInt64(&c.t.expirationsSet, 1)
+
 	c.t.NotifyExpiredAll(ctx, start, cnt)
 }
 
@@ -221,6 +224,10 @@ func (c *SyncMap) Restore(r io.Reader) (int, error) {
 		e := e
 
 		c.data.Store(string(e.K), &e)
+
+		if e.E != 0 {
+			atomic.AddInt64(&c.t.expirationsSet, 1)
+		}
 
 		n++
 	}
